@@ -147,6 +147,8 @@ class Runner:
 
     def _put(self, rel, content):
         path = os.path.join(self.root, rel)
+        if not os.path.abspath(path).startswith(self.root + os.sep):
+            raise ValueError(f"refusing to touch {path!r}: outside the world directory")
         if content is None:
             if os.path.islink(path):
                 os.remove(path)
